@@ -25,8 +25,8 @@ def uuid_from_short_str(uuid_short_str):
     try:
         uuid_number = _str_to_int(uuid_short_str)
         uuid_obj = uuid.UUID(int=uuid_number)
-    except ValueError as err:
-        raise ValueError(f"'{uuid_to_short_str}' is not a valid uuid short string") from err
+    except (ValueError, KeyError) as err:
+        raise ValueError(f"'{uuid_short_str}' is not a valid uuid short string") from err
 
     return uuid_obj
 
